@@ -85,3 +85,10 @@ reg("C34", "model_checking", "TLA+ spec Callbacks model-checked with TLC; trace 
     "callbacks invoked (in order) and device processing must equal the spec's.",
     "Trusted: TLC, virtual-time loop, mocked interface. Filter denotations are written by hand for the filters used.",
     "DESIGN.md section 5 C34")
+
+reg("C33", "model_checking", "TLA+ spec TgQueue model-checked with TLC; trace validation of the real TelegramQueue/CEMIHandler with a fault-injecting interface under virtual time",
+    "TgQueue (queue order, one in flight, spacing, done accounting) is model-checked; random mixes of incoming/outgoing/internal telegrams with injected send errors "
+    "(CommunicationError, ConversionError, unexpected exception), slow sends, missing confirmations, raising callbacks and device errors at rate limits 0/5/20 run through a started XKNX; "
+    "every trace of interface calls (order, overlap, start times), device processing and join()/stop() returns must be a behaviour of the spec.",
+    "Trusted: TLC, virtual-time loop, mocked interface. Liveness is observed as join()/stop() returning within 600 virtual seconds.",
+    "DESIGN.md section 5 C33")
